@@ -12,6 +12,7 @@ from agilerl.algorithms.dqn import DQN
 from agilerl.algorithms.dqn_rainbow import RainbowDQN
 
 from ..core import HarnessError
+from ..rand import seeded
 from . import c14_common as cm
 
 ALGOS = ["DQN", "CQN", "RainbowDQN"]
@@ -63,8 +64,7 @@ def build(algo, n, kind, support="unit"):
     if key in _AGENTS:
         return _AGENTS[key]
     osp, asp = cm.obs_space(kind), cm.action_space(f"D{n}")
-    with torch.random.fork_rng():
-        torch.manual_seed(0)
+    with seeded(0):
         if algo == "DQN":
             ag = DQN(osp, asp, net_config=cm.net_config(kind))
         elif algo == "CQN":
